@@ -14,6 +14,12 @@ pub fn check_case(c: &NetCase, obs: &mut Obs) -> Result<(), String> {
     let active = active_rules(&parsed);
     let tags = HashSet::new();
     for r in &c.reqs {
+        // the engine indexes at most 127 URL tokens (documented limit; C01 states it): a rule
+        // reached through a token beyond that is out of the compared domain
+        if super::c01::approx_tokens(&r.url) >= 120 {
+            obs.exclude("url-with-120+-tokens");
+            continue;
+        }
         let Some(req) = mk_request(r) else { continue };
         obs.inner_evals += 1;
         let hits = hits_of(&active, &req);
@@ -77,7 +83,8 @@ pub fn check_case(c: &NetCase, obs: &mut Obs) -> Result<(), String> {
 fn qs(t: &mut Tape) -> String {
     let keys = ["utm", "utm_source", "id", "ref", "fbclid", "UTM", "utm2", "xutm", "", "a", "ü", "q%20"];
     let vals = ["1", "", "x=y", "a%26b", "Utm", "ü", "1&", "v"];
-    let n = if t.chance(1, 30) { 40 + t.pick(300) } else { t.pick(6) };
+    // (up to ~50 parameters keep the URL below the engine's 127-token limit)
+    let n = if t.chance(1, 30) { 10 + t.pick(42) } else { t.pick(6) };
     let mut parts = vec![];
     for _ in 0..n {
         let k = t.choose(&keys);
